@@ -466,6 +466,9 @@ def run(ix, R):
             m_new = means[0].value
             wantq = pe['w'] * (pe['v'] - m_old) * (pe['v'] - m_new)
             if not fl.tab.equal(m2[0].value, wantq):
+                if m2[0].value.mentions(lambda a: a.head == 'phi'):
+                    raise AnalysisError('the M2 increment is built from a local with several definitions (%s): which one '
+                                        'reaches it is not followed' % unparse(m2[0].node)[:80])
                 why.append('M2 increment does not use (x - mean_old)(x - mean_new): %s' % unparse(m2[0].node))
             if fl.events.index(m2[0]) < fl.events.index(means[0]):
                 why.append('M2 updated before the mean')
@@ -480,10 +483,40 @@ def run(ix, R):
         f = ix.func(site)
         fl = mkflow(ix, site)
         rets = fl.of('return')
-        ok = any(fl.tab.equal(r.value, spec(fl, 'self.M2/self.wcount')) for r in rets) and \
-            any(fmt(fl, r.value) == 'nan' and any(fl.tab.equal(g.rf, spec(fl, 'self.count < 2')) and g.positive
-                                                    for g in r.guards) for r in rets)
-        R.check('5.var', 'ALG', site, 'variance = M2/W, NaN placeholder with fewer than two samples', ok,
+        # by scenario (the decision may sit in a shared helper): fewer than two samples / at least two
+        from sa.helpers import resolve_guards, has_guard
+        rv_ = the_return(fl).value
+        few_ = fl.tab.canon_cond(spec(fl, 'self.count < 2'))
+        vals_ = {}
+        for scen_ in (True, False):
+            def dec_(c, scen_=scen_):
+                cc, fc = fl.tab.canon_cond(c)
+                return (scen_ != (fc != few_[1])) if fl.tab.equal(cc, few_[0]) else None
+            def dec2_(c, dec_=dec_):
+                d_ = dec_(c)
+                if d_ is not None:
+                    return d_
+                ca_ = atom_of(fl, c)
+                if ca_ is not None and ca_.head == 'bool' and ca_.extra in ('And', 'Or'):
+                    ds_ = [dec2_(x) for x in ca_.args]
+                    if ca_.extra == 'Or':
+                        return True if any(x is True for x in ds_) else (False if all(x is False for x in ds_) else None)
+                    return False if any(x is False for x in ds_) else (True if all(x is True for x in ds_) else None)
+                return None
+            vals_[scen_] = resolve_guards(fl, rv_, dec2_)
+        extra_nan = None
+        ga_ = atom_of(fl, vals_[False])
+        if ga_ is not None and ga_.head == 'guard' and 'nan' in (fmt(fl, ga_.args[1]), fmt(fl, ga_.args[2])):
+            # with two or more samples the placeholder is still returned under some further condition: those ranks are
+            # then treated as having no variance when the partial results are pooled
+            extra_nan = fmt(fl, ga_.args[0])[:120]
+        elif has_guard(vals_[False]) or has_guard(vals_[True]):
+            raise AnalysisError('the variance is not settled by `count < 2`: %s' % fmt(fl, vals_[False])[:120])
+        ok = extra_nan is None and fl.tab.equal(vals_[False], spec(fl, 'self.M2/self.wcount')) and fmt(fl, vals_[True]) == 'nan'
+        if extra_nan is not None:
+            rets = []
+        R.check('5.var', 'ALG', site, 'variance = M2/W, NaN placeholder with fewer than two samples' if extra_nan is None else
+                'variance = M2/W, NaN placeholder with fewer than two samples (and only then: here also under `%s`)' % extra_nan, ok,
                 key=str([fmt(fl, r.value) for r in rets]), detail=str([fmt(fl, r.value) for r in rets]), loc=f.loc())
     site = UM + '::OnlineVariance.combine_variance'
     with R.guard('5.combine', 'ALG', site, 'combine'):
